@@ -184,7 +184,7 @@ func c18ParRun(kv map[string]string) string {
 			}
 			return "err.other:" + drv.Clean(err.Error())
 		}
-		c, ok := p.(*comp)
+		c, ok := asComp(p)
 		switch {
 		case p == nil || (ok && c == nil):
 			return "nil"
